@@ -170,7 +170,7 @@ Theorem gen_swc_eq (rules : list (py_rule X py_alloc)) (I : inst) (prof : py_cpr
            end).
 Proof.
   unfold gen_social_welfare_comparison. comparison_prefix Hlen ps.
-  py_norm_headers.
+  timeout 60 py_norm_headers.
   change (match oinit with Some a => a | None => [] end) with (alloc_or_empty oinit).
   set (sp := cp_as_sat prof sc). set (init := alloc_or_empty oinit).
   erewrite (results_loop I sp rules ps init); [|results_side sp].
@@ -333,7 +333,7 @@ Theorem gen_popularity_eq (rules : list (py_rule X py_alloc)) (I : inst) (prof :
        end.
 Proof.
   unfold gen_popularity_comparison. comparison_prefix Hlen ps.
-  py_norm_headers.
+  timeout 60 py_norm_headers.
   change (match oinit with Some a => a | None => [] end) with (alloc_or_empty oinit).
   set (sp := cp_as_sat prof sc). set (init := alloc_or_empty oinit).
   erewrite (results_loop I sp rules ps init); [|results_side sp].
@@ -400,14 +400,22 @@ Proof.
   { exfalso. cbn [length] in Hlf. symmetry in Hlf. apply length_zero_iff_nil in Hlf. exact (HRne Hlf). }
   rewrite <- Es in *. unfold py_max_opt. rewrite Es at 1.
   set (mx := fold_left py_max2 supr x0).
-  rewrite ?map_map.
-  erewrite (py_select R supf _ (fun s => py_eq s mx));
-    [ | intros; reflexivity | intros i s; cbv beta iota; apply option_eta | symmetry; exact Hlf ].
+  (* the final selection: by index list, or directly over zip(results, result_support) *)
+  first
+  [ rewrite ?map_map;
+    erewrite (py_select R supf _ (fun s => py_eq s mx));
+      [ | intros; reflexivity | intros i s; cbv beta iota; apply option_eta | symmetry; exact Hlf ]
+  | unfold py_zip;
+    match goal with
+    | |- context [map ?g (filter ?pf (combine R supf))] =>
+        rewrite (map_ext g fst) by (intros [a0 b0]; reflexivity);
+        rewrite (filter_ext pf (fun rs => py_eq (snd rs) mx)) by (intros [a0 b0]; reflexivity)
+    end ].
   f_equal.
   assert (Hmx : mx == Qnat (fold_right Nat.max O (map f res))).
   { rewrite Es in Hal. inversion Hal as [|q o sup' res' Hq Ht]; subst. unfold mx.
     rewrite (max_support f res' supr x0 (f o) Ht Hq). rewrite fold_max_lr. reflexivity. }
-  unfold R. rewrite (select_support f _ mx res supf Hal Hmx).
+  unfold R. refine (eq_trans (select_support f _ mx res supf Hal Hmx) _).
   unfold popularity. fold res.
   assert (Hsup : forall o, In o res -> support res (mults sp) o = f o).
   { intros o Ho. apply support_is_spec; [apply results_NoDup|exact Ho]. }
